@@ -120,6 +120,7 @@ def run(ctx):
     hist_pass(ctx)
     registered_pass(ctx)
     highdim_inverse_pass(ctx)
+    matrix_layout_pass(ctx)
     # the same element in different key orders through the by-name routes (wrapper, registered), incl. two-digit keys in d = 5, 6
     from harness.c09 import collision_search
     collision_search(ctx)
@@ -168,6 +169,43 @@ def highdim_inverse_pass(ctx):
                             ctx.violation('storage-dependent', case, str(ref)[:200], str(got)[:200], key=f'{oname}:storage:highdim')
                     elif not near(got, ref):
                         ctx.violation('storage-dependent', case, str(ref)[:200], str(got)[:200], key=f'{oname}:storage:highdim')
+
+
+def matrix_layout_pass(ctx):
+    """`asmatrix()` of one element in different storages (sparse, zero-padded, full canonical, full binary, full in a random
+    order): the same matrix, and `frommatrix` of it is the element"""
+    import numpy as np
+    from kingdon import MultiVector
+    rng = ctx.rng
+    for sig in ([1, 1], [1, 1, 1], [0, 1, 1], [1, -1, 1, 1]):
+        alg = make_algebra(sig)
+        N = 2 ** alg.d
+        canon = list(alg.canon2bin.values())
+        for trial in range(2 if ctx.quick else 6):
+            dense = trial % 2 == 0
+            keys = canon if dense else rng.sample(canon, rng.randint(1, min(N, 5)))
+            vals = {k: rng.randint(1, 9) for k in keys}
+            perm = list(canon); rng.shuffle(perm)
+            layouts = {'reference': list(keys), 'full-canonical': canon, 'full-binary': list(range(N)), 'full-random-order': perm,
+                       'reversed': list(reversed(keys)), 'zero-padded': list(keys) + [k for k in canon if k not in vals][:2]}
+            ref = None
+            for lname, ks_ in layouts.items():
+                x = MultiVector.fromkeysvalues(alg, tuple(ks_), [vals.get(k, 0) for k in ks_])
+                case = {'sig': sig, 'op': 'asmatrix', 'element': {int(k): v for k, v in vals.items()}, 'layout': lname, 'stored_keys': list(ks_)}
+                ctx.case(case, tag='matrix-layout')
+                try:
+                    M = np.asarray(x.asmatrix())
+                except Exception as ex:
+                    ctx.violation('storage-dependent', case, 'a matrix', 'raises ' + repr(ex)[:150], key='asmatrix:storage:raises')
+                    continue
+                if ref is None:
+                    ref = M
+                    back = mv_to_dict(MultiVector.frommatrix(alg, M))
+                    if back != {k: v for k, v in vals.items() if v != 0}:
+                        ctx.violation('storage-dependent', {**case, 'check': 'frommatrix(asmatrix(x)) == x'}, str(vals), str(back)[:200], key='asmatrix:roundtrip')
+                elif M.shape != ref.shape or not np.array_equal(M, ref):
+                    ctx.violation('storage-dependent', case, str(ref.tolist())[:200], str(M.tolist())[:200], key='asmatrix:storage')
+                    break
 
 
 def registered_pass(ctx):
